@@ -143,6 +143,24 @@ def forest_queries(Forest, V, p):
     depth = as_list(F.depth_from_leaves())
     td = int(F.tree_depth())
     desc = [as_list(F.get_descendants(v)) for v in range(V)]
+    # non-default values of the optional arguments, on the same object
+    desc_x = [as_list(F.get_descendants(v, exclude_self=True)) for v in range(V)]
+    desc_again = [as_list(F.get_descendants(v, exclude_self=False)) for v in range(V)]
+    ch_v = [as_list(F.get_children(v)) for v in range(V)]
+    bad_index = {}
+    for name, call in (("get_children(V)", lambda: F.get_children(V)), ("get_descendants(V)", lambda: F.get_descendants(V)),
+                       ("get_descendants(-1)", lambda: F.get_descendants(-1))):
+        try:
+            call()
+            bad_index[name] = "returns"
+        except ValueError:
+            bad_index[name] = "ValueError"
+        except Exception as e:  # noqa
+            bad_index[name] = type(e).__name__
+    try:
+        dflt = as_list(Forest(V).parents)
+    except Exception as e:  # noqa
+        dflt = type(e).__name__
     try:
         msb = as_list(Forest(V, np.array(p, dtype=np.int_)).merge_simple_branches().parents)
     except ValueError:
@@ -159,7 +177,7 @@ def forest_queries(Forest, V, p):
     if got_edges != exp_edges or [float(x) for x in np.asarray(G.weights).ravel()] != exp_w or G.E != 2 * len(nonroot):
         edges_ok = False
     return dict(ch=ch, leaf=leaf, root=root, depth=depth, td=td, desc=desc, msb=msb, order=order, newp=newp,
-                edges_ok=edges_ok)
+                edges_ok=edges_ok, desc_x=desc_x, desc_again=desc_again, ch_v=ch_v, bad_index=bad_index, dflt=dflt)
 
 
 def forest_oracles(ck, p, q):
@@ -175,6 +193,22 @@ def forest_oracles(ck, p, q):
         ck.fail("forest-isroot/root-iff-self-parent", "isroot() %s for parents %s" % (q["root"], list(p)), dict(rp, got=q["root"]))
     if q["desc"] != d_descendants(p):
         ck.fail("forest-descendants/closure-of-children", "get_descendants != reflexive-transitive closure for parents %s: %s" % (list(p), q["desc"]), dict(rp, got=q["desc"]))
+    dd = d_descendants(p)
+    for v in range(V):
+        want = [d for d in dd[v] if d != v]
+        if q["desc_x"][v] != want:
+            leaf = not ch[v]
+            ck.fail("forest-descendants/exclude_self=True/" + ("leaf-returns-itself" if leaf and q["desc_x"][v] == [v] else "removes-only-the-node-itself"),
+                    "get_descendants(%d, exclude_self=True) for parents %s gives %s, expected the descendants without the node: %s" % (v, list(p), q["desc_x"][v], want),
+                    dict(rp, v=v, got=q["desc_x"][v], expected=want))
+    if q["desc_again"] != q["desc"]:
+        ck.fail("forest-descendants/explicit-default-after-exclude_self", "get_descendants(v, exclude_self=False) after the exclude_self=True calls differs from the first answers for parents %s: %s vs %s" % (list(p), q["desc_again"], q["desc"]), dict(rp, got=q["desc_again"]))
+    if q["ch_v"] != q["ch"]:
+        ck.fail("forest-children/get_children(v)-vs-get_children()", "get_children(v) %s differs from get_children()[v] %s for parents %s" % (q["ch_v"], q["ch"], list(p)), dict(rp, got=q["ch_v"]))
+    if any(v != "ValueError" for v in q["bad_index"].values()):
+        ck.fail("forest-queries/out-of-range-node-index-not-refused", "node index out of range: %s for parents %s" % (q["bad_index"], list(p)), dict(rp, got=q["bad_index"]))
+    if q["dflt"] != list(range(V)):
+        ck.fail("forest-ctor/default-parents", "Forest(%d) without parents gives %s, documented: every node its own parent" % (V, q["dflt"]), {"V": V, "got": q["dflt"]})
     if not q["edges_ok"]:
         ck.fail("forest-edges/define_graph_attributes", "edges/weights after reorder are not (i,parent,+1),(parent,i,-1) for parents %s" % (list(p),), rp)
     h = d_height(p)
@@ -371,6 +405,9 @@ def one_forest(ck, Forest, rng, p, add, exhaustive_masks, extra):
     add("forest_queries_eqb %s %s %s %s %s %s %s %s" % (cnatl(p), cnll(q["ch"]), cbl(q["leaf"]), cbl(q["root"]), czl(q["depth"]), cz(q["td"]), cnll(q["desc"]), conl(q["msb"])),
         "forest-queries/model-vs-impl", "queries of Forest(%d, %s): impl %s" % (V, list(p), {k: q[k] for k in ("ch", "leaf", "root", "depth", "td", "desc", "msb")}),
         {"V": V, "parents": list(p), "impl": q, "shape": shape})
+    add("nll_eqb (map (descendants_excl %s) (seq 0 %s)) %s" % (cnatl(p), cnat(V), cnll(q["desc_x"])),
+        "forest-descendants/model-vs-impl/exclude_self=True", "get_descendants(v, exclude_self=True) of Forest(%d, %s): impl %s" % (V, list(p), q["desc_x"]),
+        {"V": V, "parents": list(p), "impl": q["desc_x"]})
     add("reorder_eqb %s %s %s" % (cnatl(p), cnatl(q["order"]), cnatl(q["newp"])),
         "forest-reorder/model-vs-impl", "reorder_from_leaves_to_roots of %s: order %s new parents %s" % (list(p), q["order"], q["newp"]),
         {"V": V, "parents": list(p), "order": q["order"], "newp": q["newp"]})
@@ -672,7 +709,7 @@ def morphology_section(ck):
         ck.count(("morph", V, tuple(E), repr(ints), scale, dt), nontrivial=len(E) > 0, bucket="morph:%s:%s:%s:%s" % (origin, dt, kind, layout))
         rp = {"V": V, "edges": [list(e) for e in E], "field_times_scale": ints, "scale": scale, "dtype": dt, "layout": layout}
         cols = [[r[d] for r in ints] for d in range(dim)]
-        nit = 1 if origin in ("exhaustive", "dtype-path3") else int(rng.integers(1, 3))
+        nit = 1 if origin in ("exhaustive", "dtype-path3") else int(rng.integers(0, 3))      # nbiter 0 (identity), 1 (the default), 2
 
         def run(op, *a, **kw):
             src = kw.pop("_src", data)
@@ -718,6 +755,13 @@ def morphology_section(ck):
         ero = run("erosion", nit)
         opn = run("opening", nit)
         cls = run("closing", nit)
+        # the documented defaults: calling without arguments = nbiter=1 (and fast=True, refdim=0)
+        if nit == 1:
+            for nm, got in (("dilation", fast), ("erosion", ero), ("opening", opn), ("closing", cls)):
+                dflt = run(nm)
+                if dflt != got:
+                    ck.fail("%s/default-arguments-differ-from-explicit-defaults" % nm, "%s() on V=%d edges=%s %s field*%d=%s gives %s but %s(1) gives %s" % (nm, V, E, dt, scale, ints, dflt, nm, got),
+                            dict(rp, op=nm, default_call=dflt, explicit=got))
         # layout independence: the same values in a C-contiguous array must give the same result
         if layout != "C":
             n_layout += 1
@@ -1131,6 +1175,24 @@ def levelsets_section(ck):
                     clist(["(%s, %s, %s)" % (cnat(a), cnat(b), cq(ww)) for (a, b), ww in zip(E, wq)]), cnat(nit), cql([Fraction(int(x)) for x in fdata[:, d].tolist()]), cql([r[d] for r in gotq])))
                 meta.append(("diffusion/model-vs-impl", "diffusion(%d) on V=%d edges=%s weights=%s %s column %s: impl %s" % (nit, V, E, w.tolist(), fdt, fdata[:, d].tolist(), [float(r[d]) for r in gotq]),
                              dict(rp, weights=w.tolist(), nbiter=nit, field_dtype=fdt, column=d)))
+
+        # ---- documented defaults: no arguments = (refdim=0, th=-inf) / nbiter=1
+        def outcome(fn, *a):
+            F = mk_field(Field, V, E, relayout(data, layout))
+            try:
+                r = getattr(F, fn)(*a)
+            except Exception as e:  # noqa
+                return "raises %s" % type(e).__name__
+            if fn == "diffusion":
+                return np.asarray(F.field).tolist()
+            return [as_list(x) for x in r] if isinstance(r, tuple) else as_list(r)
+
+        for fn, explicit in (("local_maxima", (0, -np.inf)), ("get_local_maxima", (0, -np.inf)), ("custom_watershed", (0, -np.inf)),
+                             ("threshold_bifurcations", (0, -np.inf)), ("highest_neighbor", (0,)), ("diffusion", (1,))):
+            a, b = outcome(fn), outcome(fn, *explicit)
+            if a != b:
+                ck.fail("%s/default-arguments-differ-from-explicit-defaults" % fn, "%s() on V=%d edges=%s field=%s gives %s but %s%s gives %s" % (fn, V, E, data.tolist(), a, fn, explicit, b),
+                        dict(rp, fn=fn, default_call=a, explicit=b))
 
         # ---- the queries are pure: they leave the stored field (values, dtype, shape) as it was
         for fn, args in (("local_maxima", (refdim, th)), ("get_local_maxima", (refdim, th)), ("custom_watershed", (refdim, th)),
